@@ -211,6 +211,15 @@ def deserInputs (st : Store) : List VInfoP → Store × List Nat
 def inputTable (is : List VInfoP) (vs : List Nat) : Table :=
   ((is.map (·.name)).zip vs).reverse
 
+/-- 819-837: the value of an initializer that is not a graph input: type and shape from the tensor
+    `tid`, then the value_info entry of that name if there is one; the new id is `st.nv`. -/
+def newInit (st : Store) (vi : List (Name × Info)) (t : TensorP) (tid : Nat) : Store :=
+  match vi.lookup t.name with
+  | some i =>
+    (st.alloc { name := some t.name, info := tensorInfo t.ty t.sh, const := some tid }).1.modify st.nv
+      fun c => { c with info := i.orTensor (tensorInfo t.ty t.sh) }
+  | none => (st.alloc { name := some t.name, info := tensorInfo t.ty t.sh, const := some tid }).1
+
 /-- 803-837: initializers.  Returns the store, the scope and `initializer_values`. -/
 def deserInits (st : Store) (tbl : Table) (vi : List (Name × Info)) :
     List TensorP → Store × Table × List Nat
@@ -218,19 +227,14 @@ def deserInits (st : Store) (tbl : Table) (vi : List (Name × Info)) :
   | t :: ts =>
     if t.name = "" then deserInits st tbl vi ts
     else
-      let (st1, tid) := st.allocTensor { name := some t.name, data := t.data, ty := t.ty, sh := t.sh }
+      let st1 := (st.allocTensor { name := some t.name, data := t.data, ty := t.ty, sh := t.sh }).1
       match tbl.lookup t.name with
       | some v =>
-        let st2 := st1.modify v fun c => { c with const := some tid }
-        let (st3, tbl3, vs) := deserInits st2 tbl vi ts
+        let (st3, tbl3, vs) := deserInits (st1.modify v fun c => { c with const := some st.nt }) tbl vi ts
         (st3, tbl3, v :: vs)
       | none =>
-        let (st2, v) := st1.alloc { name := some t.name, info := tensorInfo t.ty t.sh, const := some tid }
-        let st3 := match vi.lookup t.name with
-          | some i => st2.modify v fun c => { c with info := i.orTensor (tensorInfo t.ty t.sh) }
-          | none => st2
-        let (st4, tbl4, vs) := deserInits st3 ((t.name, v) :: tbl) vi ts
-        (st4, tbl4, v :: vs)
+        let (st4, tbl4, vs) := deserInits (newInit st1 vi t st.nt) ((t.name, st.nv) :: tbl) vi ts
+        (st4, tbl4, st.nv :: vs)
 
 /-- `Value(name=x)`, then `deserialize_value_info_proto(value_info[x], value)` when `x` has a
     value_info entry (922-926 for a declared output, 1352-1355 for a placeholder); the new id is
@@ -504,13 +508,14 @@ def serOutNames (vals : Nat → ValueS) : List Nat → Except SErr (List Name)
       | .error e => .error e
       | .ok ns => .ok (n :: ns)
 
-/-- 1889-1898: value_info for node outputs that are not graph outputs -/
-def outVInfo (vals : Nat → ValueS) : List Nat → List VInfoP
+/-- 1915-1930: value_info for node outputs that are not among the outputs `gouts` of the graph being
+    serialized (`graph_outputs = frozenset(from_.outputs)`; membership, not `is_graph_output()`) -/
+def outVInfo (vals : Nat → ValueS) (gouts : List Nat) : List Nat → List VInfoP
   | [] => []
   | v :: vs =>
     let c := vals v
-    if !c.isOut && shouldCreate c then ⟨c.name.getD "", c.info.emit⟩ :: outVInfo vals vs
-    else outVInfo vals vs
+    if !gouts.contains v && shouldCreate c then ⟨c.name.getD "", c.info.emit⟩ :: outVInfo vals gouts vs
+    else outVInfo vals gouts vs
 
 /-- 1872-1884: the initializer loop: value_info entries, initializer tensors, name writes. -/
 def serInits (vals : Nat → ValueS) (td : TData) (inputNames : List (Option Name)) :
@@ -533,24 +538,26 @@ def serGraph (vals : Nat → ValueS) (td : TData) : GraphT → Except SErr (Grap
     | .ok insP =>
       let inputNames := inputs.map fun v => (vals v).name
       let (vis1, tps, ws1) := serInits vals td inputNames inits
-      match serNodes vals td nodes with
+      match serNodes vals td outputs nodes with
       | .error e => .error e
       | .ok (nps, vis2, ws2) =>
         match serValues vals outputs with
         | .error e => .error e
         | .ok outsP => .ok (.mk insP tps (vis1 ++ vis2) nps outsP, ws1 ++ ws2)
 /-- 1885-1898 -/
-def serNodes (vals : Nat → ValueS) (td : TData) : List NodeT → Except SErr (List NodeP × List VInfoP × Writes)
+def serNodes (vals : Nat → ValueS) (td : TData) (gouts : List Nat) :
+    List NodeT → Except SErr (List NodeP × List VInfoP × Writes)
   | [] => .ok ([], [], [])
   | n :: ns =>
-    match serNode vals td n with
+    match serNode vals td gouts n with
     | .error e => .error e
     | .ok (np, vi, ws1) =>
-      match serNodes vals td ns with
+      match serNodes vals td gouts ns with
       | .error e => .error e
       | .ok (nps, vis, ws2) => .ok (np :: nps, vi ++ vis, ws1 ++ ws2)
 /-- `serialize_node_into` + the value_info of its outputs -/
-def serNode (vals : Nat → ValueS) (td : TData) : NodeT → Except SErr (NodeP × List VInfoP × Writes)
+def serNode (vals : Nat → ValueS) (td : TData) (gouts : List Nat) :
+    NodeT → Except SErr (NodeP × List VInfoP × Writes)
   | .mk _ _ inputs outputs subs =>
     match serInputs vals inputs with
     | .error e => .error e
@@ -560,7 +567,7 @@ def serNode (vals : Nat → ValueS) (td : TData) : NodeT → Except SErr (NodeP 
       | .ok outs =>
         match serSubs vals td subs with
         | .error e => .error e
-        | .ok (gps, ws) => .ok (.mk ins outs gps, outVInfo vals outputs, ws)
+        | .ok (gps, ws) => .ok (.mk ins outs gps, outVInfo vals gouts outputs, ws)
 def serSubs (vals : Nat → ValueS) (td : TData) : List GraphT → Except SErr (List GraphP × Writes)
   | [] => .ok ([], [])
   | g :: gs =>
